@@ -10,7 +10,12 @@ perpendicular and in the exact inclusion test.
 Known finding (cannot be repaired, a unit test pins it): VERTICAL segments.  Every failure caused by
 it carries the token 'vertical-segment'; the polylines that contain a vertical segment are confined
 to a small number of batch cases (`vertical: true`) so the runner's 50-failure cap is never reached
-by the known finding alone.  Failures are listed with the non-vertical ones first."""
+by the known finding alone.  Failures are listed with the non-vertical ones first.
+
+Second defect class met on the tree: HORIZONTAL segments whose ordinate is not a dyadic number
+(0.1, 1.1, raw floats): -c/b differs from y1 by one ulp and the exact inclusion test rejects the foot.
+Failures of that kind carry the token 'horizontal-segment'; polylines of that class are confined to
+the batch cases with `horizontal_inexact: true` (also a bounded number)."""
 import math
 import random
 
@@ -18,12 +23,15 @@ ID = "C20"
 BOUND = {
     "quick": "exhaustive: all 240 non-degenerate segments with integer end points in [0,3]^2 x all 169 query points of the "
              "half-integer grid [-1,5]^2 (step 0.5); all 3-vertex polylines on {0,1,2}^2 (incl. zero-length segments, "
-             ">= 1 non-degenerate) x 49 half-integer queries; random: 5000 polylines of 2..8 vertices (oblique/horizontal/"
-             "zero-length segments; coordinates dyadic 1/4-grid, decimal 0.1-grid, decimal with Lambert-like offset, raw "
-             "floats) x ~26 queries (beside, beyond the ends, on, at a vertex, far, random); 24 batch cases (4 + 6 exhaustive, 14 random of 6 polylines) "
-             "holding every polyline that contains a vertical segment",
-    "thorough": "same exhaustive part; 3-vertex polylines on {0,1,2,3}^2 sampled 1/3 x 81 queries; 300000 random polylines x 26 queries; "
-                "36 batch cases (4 + 6 exhaustive, 26 random of 25 polylines x 16 queries) with vertical segments",
+             ">= 1 non-degenerate) x 49 half-integer queries; random: 5000 polylines of 2..8 vertices x 26 queries (beside, "
+             "beyond the ends, on, at a vertex, far 1e3..1e6, random) -- dyadic 1/4-grid coordinates with oblique/horizontal/"
+             "zero-length segments, decimal 0.1-grid / Lambert-like offset / raw float coordinates with oblique/zero-length "
+             "segments; 10 batch cases of 10 polylines x 16 queries with horizontal segments on decimal / offset / float "
+             "coordinates; 18 batch cases (4 + 6 exhaustive, 8 random of 10 polylines x 16 queries) holding every polyline "
+             "that contains a vertical segment",
+    "thorough": "same exhaustive part; 3-vertex polylines on {0,1,2,3}^2 sampled 1/3 x 81 queries; 300000 random polylines x "
+                "26 queries; 16 batch cases of 60 polylines with inexact horizontal segments; 26 batch cases (4 + 6 exhaustive, "
+                "16 random of 40 polylines x 16 queries) with vertical segments",
 }
 RULE = ("case = one polyline (or, vertical=true, a batch of polylines with a vertical segment) + a list of query points; "
         "one evaluation = one (polyline, query) pair checked through proj_polyligne, mapOnTrack(coord), mapOnTrack(track) "
@@ -69,8 +77,9 @@ def nondegenerate(X, Y):
 
 
 # ------------------------------------------------------------------ case generation
-def _vertex_seq(rnd, n, coord, allow_vertical):
-    """Vertices of a polyline; each successive segment is drawn oblique / horizontal / vertical / zero-length."""
+def _vertex_seq(rnd, n, coord, vertical, horizontal="any"):
+    """Vertices of a polyline; each successive segment is drawn oblique / horizontal / vertical / zero-length.
+    vertical: True = at least one vertical segment, False = none.  horizontal: 'any' | 'require' | 'forbid'."""
     while True:
         X, Y = [coord(rnd)], [coord(rnd)]
         for _ in range(n - 1):
@@ -80,17 +89,20 @@ def _vertex_seq(rnd, n, coord, allow_vertical):
                 nx, ny = coord(rnd), coord(rnd)
                 if nx == x or ny == y:
                     nx, ny = coord(rnd), coord(rnd)
-            elif k < 0.70:                     # horizontal
-                nx, ny = coord(rnd), y
-            elif k < 0.88:                     # vertical (or oblique when not allowed)
-                nx, ny = (x, coord(rnd)) if allow_vertical else (coord(rnd), coord(rnd))
+            elif k < 0.70:                     # horizontal (or oblique when not wanted)
+                nx, ny = (coord(rnd), y) if horizontal != "forbid" else (coord(rnd), coord(rnd))
+            elif k < 0.88:                     # vertical (or oblique when not wanted)
+                nx, ny = (x, coord(rnd)) if vertical else (coord(rnd), coord(rnd))
             else:                              # zero-length
                 nx, ny = x, y
             X.append(nx)
             Y.append(ny)
         if not nondegenerate(X, Y):
             continue
-        if has_vertical(X, Y) != allow_vertical:
+        if has_vertical(X, Y) != vertical:
+            continue
+        hh = any(seg_kind(X, Y, i) == "horizontal-segment" for i in range(len(X) - 1))
+        if (horizontal == "require" and not hh) or (horizontal == "forbid" and hh):
             continue
         return X, Y
 
@@ -166,9 +178,9 @@ def cases(tier, seed):
                     if x1 == x2:
                         vert_batches.setdefault(x1, []).append(P)
                     else:
-                        yield dict(kind="exh-seg", coords="integer", vertical=False, polylines=[P], Q=grid_q)
+                        yield dict(kind="exh-seg", coords="integer", vertical=False, horizontal_inexact=False, polylines=[P], Q=grid_q)
     for x1 in sorted(vert_batches):
-        yield dict(kind="exh-seg", coords="integer", vertical=True, polylines=vert_batches[x1], Q=grid_q)
+        yield dict(kind="exh-seg", coords="integer", vertical=True, horizontal_inexact=False, polylines=vert_batches[x1], Q=grid_q)
     # -- exhaustive 2: 3-vertex polylines on a small integer grid (zero-length segments included)
     g = 3 if tier == "quick" else 4
     pts = [(a, b) for a in range(g) for b in range(g)]
@@ -188,30 +200,43 @@ def cases(tier, seed):
                 if has_vertical(X, Y):
                     vb.append(dict(X=X, Y=Y))
                 else:
-                    yield dict(kind="exh-3", coords="integer", vertical=False, polylines=[dict(X=X, Y=Y)], Q=small_q)
+                    yield dict(kind="exh-3", coords="integer", vertical=False, horizontal_inexact=False, polylines=[dict(X=X, Y=Y)], Q=small_q)
     nb = 6  # the vertical 3-vertex polylines go into 6 batch cases
     for b in range(nb):
         part = vb[b::nb]
         if part:
-            yield dict(kind="exh-3", coords="integer", vertical=True, polylines=part, Q=small_q)
-    # -- random polylines, no vertical segment: one polyline per case
-    nrand = 5000 if tier == "quick" else 300000
+            yield dict(kind="exh-3", coords="integer", vertical=True, horizontal_inexact=False, polylines=part, Q=small_q)
     systems = ["dyadic", "dyadic", "decimal", "decimal", "offset", "float"]
+    inexact = ["decimal", "offset", "float", "decimal"]
+    # -- random polylines with >= 1 vertical segment: a bounded number of batch cases (known finding)
+    nvb, per = (8, 10) if tier == "quick" else (16, 40)
+    for c in range(nvb):
+        system = systems[c % len(systems)]
+        P = []
+        for m in range(per):
+            X, Y = _vertex_seq(rnd, 2 + (c + m) % 7, _coord_fn(system), vertical=True,
+                               horizontal="any" if system == "dyadic" else "forbid")
+            P.append(dict(X=X, Y=Y, Q=_queries(rnd, X, Y, system, 16)))
+        yield dict(kind="rand", coords=system, vertical=True, horizontal_inexact=False, polylines=P, Q=[])
+    # -- random polylines with >= 1 horizontal segment whose ordinate is not a dyadic number (decimal / raw float
+    #    coordinates): the class in which rounding decides the inclusion test; also a bounded number of batch cases
+    nhb, per = (10, 10) if tier == "quick" else (16, 60)
+    for c in range(nhb):
+        system = inexact[c % len(inexact)]
+        P = []
+        for m in range(per):
+            X, Y = _vertex_seq(rnd, 2 + (c + m) % 7, _coord_fn(system), vertical=False, horizontal="require")
+            P.append(dict(X=X, Y=Y, Q=_queries(rnd, X, Y, system, 16)))
+        yield dict(kind="rand", coords=system, vertical=False, horizontal_inexact=True, polylines=P, Q=[])
+    # -- random polylines, one per case: dyadic coordinates with oblique / horizontal / zero-length segments,
+    #    inexact coordinates with oblique / zero-length segments
+    nrand = 5000 if tier == "quick" else 300000
     for c in range(nrand):
         system = systems[c % len(systems)]
         n = 2 + (c // len(systems)) % 7
-        X, Y = _vertex_seq(rnd, n, _coord_fn(system), allow_vertical=False)
-        yield dict(kind="rand", coords=system, vertical=False, polylines=[dict(X=X, Y=Y)],
+        X, Y = _vertex_seq(rnd, n, _coord_fn(system), vertical=False, horizontal="any" if system == "dyadic" else "forbid")
+        yield dict(kind="rand", coords=system, vertical=False, horizontal_inexact=False, polylines=[dict(X=X, Y=Y)],
                    Q=_queries(rnd, X, Y, system, 26))
-    # -- random polylines with >= 1 vertical segment: a bounded number of batch cases
-    nvb, per = (14, 6) if tier == "quick" else (26, 25)
-    for c in range(nvb):
-        system = systems[c % len(systems)]
-        P, Q = [], []
-        for m in range(per):
-            X, Y = _vertex_seq(rnd, 2 + (c + m) % 7, _coord_fn(system), allow_vertical=True)
-            P.append(dict(X=X, Y=Y, Q=_queries(rnd, X, Y, system, 16)))
-        yield dict(kind="rand", coords=system, vertical=True, polylines=P, Q=[])
 
 
 # ------------------------------------------------------------------ contract
